@@ -18,6 +18,10 @@ class UserErr(Exception):
     pass
 
 
+class PerInstance:
+    """valid as a child only if THIS instance was given a tagify() (or _repr_html_) of its own"""
+
+
 class ReprTuple(tuple):
     """a record type (NamedTuple-like) that renders itself"""
     def _repr_html_(self):
@@ -44,6 +48,11 @@ def conc_val(v, H, shared=None):
         return {}
     if v == "emptyset":
         return set()
+    if v in ("itfy", "ibad"):
+        o = PerInstance()
+        if v == "itfy":
+            o.tagify = lambda: "e"
+        return o
     if v == "fraction":
         import fractions
         return fractions.Fraction(1, 2)
@@ -127,7 +136,7 @@ def run_program(tagnames, events, H, realbase=False, shared_list=False):
                     items.append("t:" + str(c.attrs.get("id")))
                 elif isinstance(c, H.HTMLDependency):
                     items.append("d:" + c.name)
-                elif isinstance(c, gamma.Tfy):
+                elif isinstance(c, gamma.Tfy) or (isinstance(c, PerInstance) and hasattr(c, "tagify")):
                     items.append("f:obj")
                 else:
                     items.append("o:" + type(c).__name__)
@@ -155,7 +164,7 @@ def run_program(tagnames, events, H, realbase=False, shared_list=False):
         return type(ex).__name__
 
     # recursive interpreter: returns the index of the next event to run
-    def body(pos):
+    def body(pos, cur=None):
         while pos < len(events):
             e = events[pos]
             act = e["act"]
@@ -170,6 +179,11 @@ def run_program(tagnames, events, H, realbase=False, shared_list=False):
                     observe(pos, exc_name(ex))
                     ex._pos = pos + 1
                     raise
+                observe(pos, "None")
+                pos += 1
+            elif act == "Relist":
+                if cur is not None:
+                    cur.children = H.TagList(*cur.children)
                 observe(pos, "None")
                 pos += 1
             elif act == "DisplayC":
@@ -200,7 +214,7 @@ def run_program(tagnames, events, H, realbase=False, shared_list=False):
                 hook_of.setdefault(id(sys.displayhook), e["t"])
                 keep.append(sys.displayhook)
                 observe(pos, "None")
-                p = body(pos + 1)
+                p = body(pos + 1, tg)
                 return p
         try:
             p = run_with()
@@ -256,8 +270,8 @@ def well_formed_random(rnd, tagnames, maxevents, maxdepth):
     n = 0
     vals = ["str", "num", "zero", "empty", "none", "dots", "repr", "tag", "tfy", "list", "bad", "badlist",
             "dep", "dep", "depeq", "false", "zerof", "emptyhtml", "emptydict", "emptyset", "reprtuple", "reprstr",
-            "fraction", "decimal", "complex"]
-    BAD = ("bad", "badlist", "emptydict", "emptyset", "fraction", "decimal", "complex")
+            "fraction", "decimal", "complex", "itfy", "itfy", "ibad"]
+    BAD = ("bad", "badlist", "emptydict", "emptyset", "fraction", "decimal", "complex", "ibad")
     while n < maxevents or stack:
         if exc or n >= maxevents:
             if not stack:
@@ -286,6 +300,9 @@ def well_formed_random(rnd, tagnames, maxevents, maxdepth):
             used.add(t)
             stack.append((t, g))
             events.append({"act": "Enter", "t": t, "g": g, "v": ""})
+            n += 1
+        elif r < 0.36 and stack:
+            events.append({"act": "Relist", "t": "", "g": False, "v": ""})
             n += 1
         elif r < 0.45 and stack:
             events.append({"act": "DisplayC", "t": "", "g": False, "v": rnd.choice(vals + list(BAD))})
